@@ -28,10 +28,10 @@ def jBool (j : Json) (k : String) : Except String Bool := do
   v.getBool?
 
 def jArr (j : Json) (k : String) : Except String (Array Json) := do
-  let v ← j.getObjVal? k
-  match v with
-  | .null => pure #[]
-  | _ => v.getArr?
+  match j.getObjVal? k with
+  | .error _ => pure #[]
+  | .ok .null => pure #[]
+  | .ok v => v.getArr?
 
 def jNatList (j : Json) (k : String) : Except String (List Nat) := do
   let a ← jArr j k
